@@ -307,6 +307,12 @@ func (c *Controller) scaleNodeGroup(nodegroup string, nodeGroup *NodeGroupState)
 	// If we ever get into a state where we have less nodes than the minimum
 	if len(untaintedNodes) < nodeGroup.Opts.MinNodes {
 		log.WithField("nodegroup", nodegroup).Warn("There are less untainted nodes than the minimum")
+		// a scale up is still inside its cool down: wait for it like every other scaling activity does
+		if nodeGroup.scaleUpLock.locked() {
+			log.WithField("nodegroup", nodegroup).Info(nodeGroup.scaleUpLock)
+			log.WithField("nodegroup", nodegroup).Info("Waiting for scale to finish")
+			return nodeGroup.scaleUpLock.requestedNodes, nil
+		}
 		result, err := c.ScaleUp(scaleOpts{
 			nodes:             allNodes,
 			nodesDelta:        nodeGroup.Opts.MinNodes - len(untaintedNodes),
